@@ -517,8 +517,12 @@ def apply_rules(s, rules, st, label='rule'):
             # contract decides) or is still there as C++ (then goto-cc rejects the unit: exit 2).  '!' marks the essential ones.
             bump(st, '%s-unfired:%s' % (label, pat[:50]))
             continue
-        if k == 0 or (isinstance(count, int) and k > count):
+        if k == 0:
             raise ExtractError('%s %d %r fired %d time(s), expected %s' % (label, idx, pat[:70], k, count if count is not None else '>=1'))
+        if isinstance(count, int) and k > count:
+            # the construct occurs more often than on the pinned tree: every occurrence gets the same shim (the rule rewrites a
+            # construct, not a position); recorded so that the evidence shows the extraction drifted
+            bump(st, '%s-overfired:%s' % (label, pat[:50]), k - count)
         bump(st, '%s:%s' % (label, pat[:50]), k)
         s = s2
     return s
